@@ -228,6 +228,7 @@ def run(chk):
     family(chk)
     qt_family(chk)
     const_ctl_family(chk)
+    listlit_family(chk)
     edge_families(chk)
     flags_family(chk)
     nonfinite_family(chk)
@@ -396,6 +397,40 @@ def const_ctl_family(chk):
     chk.cov["constant_bodies_with_control_flow"] = {"programs": len(progs), "embedded": n_emb}
     if n_emb < 10:
         raise ToolError("only %d of the constant bodies were embedded: the family does not reach the static evaluator" % n_emb)
+
+
+def listlit_family(chk):
+    """G: string-list values (GenListLit.tla): embedded only when every part is a constant, and then as Lang.tla evaluates it (Expect.tla);
+    a list with a part read at run time is generated (or diagnosed), never embedded, never short of an element"""
+    progs = P.tlc_programs(chk, "GenListLit", 100, chk.seed)
+    for n, p in enumerate(progs):
+        p["id"] = "ll%d" % n
+    rows = P.expect(chk, progs)
+    reqs = [{"id": p["id"], "src": P.binding_doc([p])[0], "type_name": "Doc", "modes": ["generate"]} for p in progs]
+    res = translate(reqs, metatypes=[VERIF_METATYPES])
+    n_emb = 0
+    for p, q in zip(progs, reqs):
+        run_ = res[p["id"]]["generate"]
+        r = rows.get(p["id"])
+        chk.count({"listlit": p["body"]}, nontrivial=True)
+        if run_.get("panic") or not run_.get("ui") or not r:
+            continue
+        vals = {x["v"] for x in r if x["ok"]}
+        got = ui_values(run_["ui"]).get("t0", {}).get("items")
+        text = lang.r_body(p["body"])[:160]
+        if got:
+            n_emb += 1
+            if lang.has_dynamic(p["body"]) or len(vals) != 1:
+                chk.violation("list `%s` depends on run-time values but is embedded as %s" % (text, got[0][3]), {"qml": q["src"], "embedded": got[0][3], "values_by_state": sorted(vals)})
+                continue
+            want = json.loads(lang.canon_from_show(vals.pop()))
+            if got[0][0] != "stringlist" or got[0][3] != want:
+                chk.violation("constant list `%s` has the value %s but is embedded as %s" % (text, want, got[0][3]), {"qml": q["src"], "expected": want, "embedded": got[0][3]})
+        elif not run_.get("n_errors") and "evalT0Items" not in (run_.get("header") or ""):
+            chk.violation("list `%s` is neither embedded, generated nor diagnosed" % text, {"qml": q["src"]})
+    chk.cov["string_lists"] = {"programs": len(progs), "embedded": n_emb}
+    if n_emb < 10:
+        raise ToolError("only %d of the lists were embedded: the family does not reach the static evaluator" % n_emb)
 
 
 # operators outside the documented subset applied to constants: rejected, or -- if a future version supports them -- the ECMAScript value; never another value
